@@ -32,3 +32,17 @@ func VerifUDPSlabCap(l Listener) int64 {
 	}
 	return 0
 }
+
+// VerifTCPListener builds the owned TCP listener with an explicit resource plan.
+func VerifTCPListener(s *Server, addr string, maxConns, smallJobs, largeJobs int) Listener {
+	plan := resourcePlan{tcpConns: maxConns, tcpSmallJobs: smallJobs, tcpLargeJobs: largeJobs}
+	return newTCPListener(addr, s, s.shutdownTimeout(), maxConns, plan)
+}
+
+// VerifUDPState reports the engine's lease and in-flight counts (0,0 if not bound).
+func VerifUDPState(l Listener) (leased, inFlight int64) {
+	if u, ok := l.(*udpListener); ok && u.engine != nil {
+		return u.engine.leased.Load(), u.engine.inFlight.Load()
+	}
+	return 0, 0
+}
